@@ -35,6 +35,7 @@ def shards(tier):
     for cols in (1, 2, 12, 24):
         out.append(dict(part="tables", kind="trough", cols=cols, concrete=True))
     out.append(dict(part="tables", kind="ltrough", cols=2, concrete=True))
+    out.append(dict(part="distribute", concrete=True))
     return out
 
 
@@ -47,7 +48,7 @@ def engine_opts(p, tier):
 
 
 def witnesses(tier):
-    return {"helper:ok", "helper:rejected", "op:ok", "op:rejected", "tables"}
+    return {"helper:ok", "helper:rejected", "op:ok", "op:rejected", "tables", "distribute"}
 
 
 _patched = False
@@ -93,6 +94,20 @@ def scenario(ctx, p):
     part = p["part"]
     if part == "tables":
         return scenario_tables(ctx, p, ns)
+    if part == "distribute":
+        # source range = tip positions of the named trough column (1 + V*col .. V*col + V on both devices, DESIGN L1);
+        # destination range / exclusions = device-specific positions of the named wells
+        dev = ctx.choose("dev", ["evo", "fluent"])
+        V, C = ctx.choose("trough", [(3, 2), (8, 3), (1, 2)])
+        col = ctx.choose("col", list(range(C)))
+        dkind = ctx.choose("dest", ["plate", "trough"])
+        src = ns.Trough("S", V, C, min_volume=0, max_volume=1e6, initial_volumes=1e5)
+        dst = ns.Labware("D", 4, 3, min_volume=0, max_volume=1e6) if dkind == "plate" else ns.Trough("D", 4, 3, min_volume=0, max_volume=1e6)
+        wells = ["B01", "A03", "D02"] if dkind == "plate" else ["A01", "C03"]
+        wl = common.make_worklist(ctx, dev, 1000)
+        wl.distribute(src, col, dst, wells, volume=10)
+        c.update(dev=dev, V=V, C=C, col=col, dkind=dkind, wells=wells, recs=list(wl))
+        return wl
     g = tuple(p["geo"])
     lab = make(ns, g)
     well = ctx.chars("well", p["L"], 32, 255)
@@ -144,6 +159,22 @@ def judge(ctx, p, outcome):
             ctx.reach("tables")
             for msg in val:
                 ctx.violate(msg)
+        return
+    if part == "distribute":
+        if kind_ == "exc":
+            ctx.violate(f"C08: distribute raised {type(val).__name__}: {val}")
+            return
+        ctx.reach("distribute")
+        (rec,) = [r for r in c["recs"] if r.startswith("R;")]
+        f = rec.split(";")
+        V, col, dev = c["V"], c["col"], c["dev"]
+        if (int(f[4]), int(f[5])) != (1 + V * col, V * col + V):
+            ctx.violate("C08: source range of the R record is not the tip positions of the named trough column", info=dict(record=rec, V=V, col=col))
+        pos = sorted(formula("plate" if c["dkind"] == "plate" else "trough", 4, 3, dev, ROWS.index(w[0]), int(w[1:]) - 1) for w in c["wells"])
+        excl = [int(x) for x in f[16:]]
+        targets = [x for x in range(int(f[9]), int(f[10]) + 1) if x not in excl]
+        if targets != sorted(set(pos)):
+            ctx.violate("C08: destination range / exclusions of the R record do not select the positions of the named wells", info=dict(record=rec, wells=c["wells"], want=pos))
         return
     lab, well, (kind, R, C) = c["lab"], c["well"], c["g"]
     canon, row, col = canonical(ctx, well, kind, R, C)
